@@ -475,29 +475,89 @@ func ashiftRule(w *World, r *Report) {
 		r.add("ASHIFT", key+" / body", pos, Violated, bad)
 		return
 	}
-	if len(shl) != 1 || len(shr) != 1 {
-		r.add("ASHIFT", key+" / body", pos, Undecided, fmt.Sprintf("expected one << and one >>, found %d and %d", len(shl), len(shr)))
-		return
-	}
 	idx, sh := f.Params[0], f.Params[1]
-	// guards: the block of shl must be dominated by the true edge of (shift >= 0)
-	// (or false edge of shift < 0); shr by the opposite edge.
-	okShl := guardedBySign(f, shl[0].Block(), sh, true)
-	okShr := guardedBySign(f, shr[0].Block(), sh, false)
-	if shl[0].X != idx || shr[0].X != idx || !isSignedInt(idx.Type()) {
-		r.add("ASHIFT", key+" / operand", pos, Violated, "the shifted operand is not the signed index parameter itself")
+	if !isSignedInt(idx.Type()) {
+		r.add("ASHIFT", key+" / operand", pos, Violated, "the index parameter is not a signed integer")
 		return
 	}
-	// shift counts: sh for <<, -sh for >>
-	cntOK := stripConv(shl[0].Y) == sh
-	if u, ok := stripConv(shr[0].Y).(*ssa.UnOp); !ok || u.Op != token.SUB || u.X != sh {
-		cntOK = false
+	// enumerate the three sign regions of the shift parameter: in each region
+	// every reachable return must yield the scaled index
+	isIdx := func(v ssa.Value) bool { return stripConv(v) == ssa.Value(idx) }
+	shapeOf := func(v ssa.Value) string {
+		v = stripConv(v)
+		if isIdx(v) {
+			return "id"
+		}
+		b, ok := v.(*ssa.BinOp)
+		if !ok || !isIdx(b.X) {
+			return "?"
+		}
+		cnt := stripConv(b.Y)
+		neg := false
+		if u, ok := cnt.(*ssa.UnOp); ok && u.Op == token.SUB {
+			cnt, neg = stripConv(u.X), true
+		}
+		if cnt != ssa.Value(sh) {
+			return "?"
+		}
+		switch {
+		case b.Op == token.SHL && !neg:
+			return "shl"
+		case b.Op == token.SHR && neg:
+			return "shr"
+		}
+		return "?"
 	}
-	if !okShl || !okShr || !cntOK {
-		r.add("ASHIFT", key+" / branches", pos, Violated, fmt.Sprintf("shift direction is not selected by the sign of the shift parameter (<< guarded by shift>=0: %v, >> guarded by shift<0: %v, counts shift/-shift: %v)", okShl, okShr, cntOK))
+	var problems []string
+	for _, reg := range []struct {
+		name   string
+		lo, hi float64
+		accept map[string]bool
+	}{
+		{"shift > 0", 1, 62, map[string]bool{"shl": true}},
+		{"shift == 0", 0, 0, map[string]bool{"shl": true, "shr": true, "id": true}},
+		{"shift < 0", -62, -1, map[string]bool{"shr": true}},
+	} {
+		oracle := func(cond ssa.Value) (bool, bool) {
+			c, ok := resolve(cond).(*ssa.BinOp)
+			if !ok {
+				return false, false
+			}
+			if k, isK := constFloat(c.Y); isK && stripConv(c.X) == ssa.Value(sh) {
+				return decideCmp(c.Op, reg.lo, reg.hi, k)
+			}
+			if k, isK := constFloat(c.X); isK && stripConv(c.Y) == ssa.Value(sh) {
+				return decideCmp(flipOp(c.Op), reg.lo, reg.hi, k)
+			}
+			return false, false
+		}
+		reach := simulate(f.Blocks[0], nil, oracle)
+		n := 0
+		for _, ret := range returnsOf(f) {
+			if !reach[ret.Block()] || len(ret.Results) != 1 {
+				continue
+			}
+			n++
+			v := resolve(ret.Results[0])
+			if ph, ok := v.(*ssa.Phi); ok {
+				if pv, uniq := phiValueUnder(f, ph, oracle); uniq {
+					v = resolve(pv)
+				}
+			}
+			if sp := shapeOf(v); !reg.accept[sp] {
+				problems = append(problems, fmt.Sprintf("for %s the result is %s", reg.name, describeValue(v)))
+			}
+		}
+		if n == 0 {
+			problems = append(problems, "no return reachable for "+reg.name)
+		}
+	}
+	if len(problems) > 0 {
+		r.add("ASHIFT", key+" / branches", pos, Violated, "shift direction is not selected by the sign of the shift parameter: "+strings.Join(problems, "; ")+" (expected index << shift for shift > 0, index >> -shift for shift < 0)")
 		return
 	}
-	r.add("ASHIFT", key+" / body", pos, Discharged, "index << shift when shift >= 0, index >> -shift (signed, arithmetic) otherwise")
+	_, _ = shl, shr
+	r.add("ASHIFT", key+" / body", pos, Discharged, "index << shift when shift > 0, index >> -shift (signed, arithmetic) when shift < 0, index for shift == 0: enumerated over the three sign regions")
 }
 
 // guardedBySign: block b executes only when param p >= 0 (nonneg=true) or p < 0.
